@@ -46,6 +46,7 @@ THEOREMS = [
     "SleapVerif.C09.lq_track_output_complete",
     "SleapVerif.C09.lq_track_ids_distinct_in_frame",
     "SleapVerif.C09.lq_history",
+    "SleapVerif.C09.track_ignores_input_tracks",
     "SleapVerif.C09.model_cost_colPattern",
     "SleapVerif.C09.nan_row_model_divergence",
     "SleapVerif.C09.nan_track_counterexample",
@@ -307,8 +308,24 @@ def run_impl(case):
     """Run the real tracker over the history.  Returns per-frame records."""
     tracker, rec = make_tracker(case["cfg"])
     frames = []
+    in_mode = case.get("input_tracks")          # inputs that ALREADY carry a track (re-tracking; C09-r7m1)
+    stale = _sio.Track(7) if in_mode else None
+    other = _Tracker.from_config(candidates_method="fixed_window", window_size=2) if in_mode == "other_tracker" else None
+    last_tracks = []
+    second = case.get("second_tracker")         # a fresh tracker started mid-history (C10-r7m2)
     for f, dets in enumerate(case["frames"]):
+        if second and f == second["after"]:
+            frames_b = run_impl({"cfg": second["cfg"], "frames": second["frames"]})
+            rec.second = frames_b
         insts = [make_instance(d) for d in dets]
+        if in_mode == "stale_same":
+            for inst in insts:
+                inst.track = stale
+        elif in_mode == "perm_last" and last_tracks:
+            for k, inst in enumerate(insts):
+                inst.track = last_tracks[(k + 1) % len(last_tracks)]
+        elif in_mode == "other_tracker":
+            call(other.track, insts, f)          # another Tracker attached its own tracks first
         for i, inst in enumerate(insts):
             rec.inst_id[id(inst)] = (f, i)
         rec.keep.extend(insts)
@@ -341,8 +358,18 @@ def run_impl(case):
                         rec.keep.append(o.track)
                     objs.append((idx, rec.track_label[id(o.track)]))
             fr["out_obj"] = objs
+            if tracker.is_local_queue:
+                # returned WITH a track although this tracker did not assign one (the instance is in no
+                # track's queue): the track is whatever the input carried (F-C09e)
+                queued = {id(x.src_instance) for dq in tracker.candidate.tracker_queue.values() for x in dq}
+                fr["unassigned_with_track"] = [
+                    next((i for i, x in enumerate(insts) if x is o), None)
+                    for o in res[1] if o.track is not None and id(o) not in queued]
+            last_tracks = [o.track for o in res[1] if o.track is not None] or last_tracks
             fr["res"] = "ok"
             fr["out"] = out
+            if second and f == second["after"]:
+                fr["second"] = getattr(rec, "second", None)
             fr["state"] = canon_state(tracker, rec)
             frames.append(fr)
         else:
@@ -450,7 +477,8 @@ def impl_fields(case, fr):
         res = "raise:emptyMax"
     else:
         res = fr["res"] + ":" + fr.get("msg", "")
-    out = "" if fr["out"] is None else " ".join(f"{i}:{ostr(t)}" for i, t in fr["out"])
+    stale = set(fr.get("unassigned_with_track") or [])     # F-C09e: reported by the oracle, not as a model diff
+    out = "" if fr["out"] is None else " ".join(f"{i}:{ostr(None if i in stale else t)}" for i, t in fr["out"])
     if fr["matrix"] is not None:
         m = fr["matrix"]
         shape = f"{m.shape[0]} {m.shape[1]}"
@@ -625,6 +653,8 @@ def oracle(case, frames):
         tr = [t for _, t in out if t is not None]
         if len(set(tr)) != len(tr):
             bad.append((f, "two detections share a track"))
+        if fr.get("unassigned_with_track"):
+            bad.append((f, "a detection the tracker assigned no track to is returned with the track its input carried"))
     # well-formedness of what the public API hands back: one `sio.Track` object per track id over the whole
     # history (Track compares by identity, so a second object with the same name is a different track
     # downstream), and different ids never share an object
@@ -660,6 +690,11 @@ def signatures(case, frames, bad):
     if what.startswith("raise:ValueError") and fr["pre_stale"] and (
             "infeasible" in what or "zero-size" in what):
         sigs.append("stale_track_no_candidate")
+    # F-C09e: local queues + inputs that already carry tracks: an unassigned detection keeps its input track
+    if case.get("input_tracks") and case["cfg"]["candidates_method"] == "local_queues" \
+            and fr.get("unassigned_with_track") and ("share a track" in what or "input carried" in what
+                                                     or "sio.Track object" in what):
+        sigs.append("lq_untracked_keeps_input_track")
     # F-C09d: a detection without any visible keypoint (all association scores NaN) was seen up to the
     # failing frame, and the failure is the one NaN scores cause (scipy infeasible / dropped / untracked)
     if (has_allnan(case, f) or case["cfg"].get("use_flow")) and (what in ("dropped", "untracked") or
@@ -703,7 +738,7 @@ def ulp_scores(thr):
 
 
 def gen_case(rng, cfg=None, max_animals=5, max_frames=12, degenerate=None, nan_scores=False, ulp=False,
-             hidden=False):
+             hidden=False, input_tracks=None, second_tracker=None):
     cfg = dict(cfg or rng.choice(all_configs()))
     if rng.random() < 0.06 and not nan_scores and not hidden and degenerate is None and cfg["features"] == "keypoints":
         cfg["scoring_method"] = "euclidean_dist"       # off-diagonal pair (full poses only: NaN-free)
@@ -784,7 +819,17 @@ def gen_case(rng, cfg=None, max_animals=5, max_frames=12, degenerate=None, nan_s
                     dets.append([pos[a][0], pos[a][1], sc, a, 3 + (a % 3), pose])
         rng.shuffle(dets)
         frames.append(dets)
-    return {"cfg": cfg, "frames": frames, **({"family": family} if family else {})}
+    case = {"cfg": cfg, "frames": frames, **({"family": family} if family else {})}
+    if input_tracks or (input_tracks is None and not nan_scores and rng.random() < 0.12):
+        # re-tracking: the input instances already carry tracks (seeded C09-r7m1)
+        case["input_tracks"] = rng.choice(["stale_same", "perm_last", "other_tracker"])
+    if second_tracker or (second_tracker is None and rng.random() < 0.08 and len(frames) >= 3):
+        # a fresh tracker is started (and run) in the same process in the middle of this history (C10-r7m2)
+        cfg_b = dict(rng.choice(all_configs()), window_size=rng.choice([1, 3]), instance_score_threshold=0.0)
+        case["second_tracker"] = {"after": rng.randint(1, len(frames) - 1), "cfg": cfg_b,
+                                  "frames": [[[200.0 + k, 200.0, 0.9, 9], [260.0, 200.0 + k, 0.9, 8]][:rng.choice([1, 2])]
+                                             for k in range(rng.choice([1, 2, 3]))]}
+    return case
 
 
 def gen_flow_case(rng, cfg=None):
@@ -846,6 +891,10 @@ def case_tags(case, frames):
         tags.append("has_empty_frame")
     if case.get("family"):
         tags.append("family_" + case["family"])
+    if case.get("input_tracks"):
+        tags.append("input_tracks_" + case["input_tracks"])
+    if case.get("second_tracker"):
+        tags.append("second_tracker")
     if any(fr["pre_stale"] for fr in frames):
         tags.append("has_stale_track")
     if any(fr["match"] and isinstance(fr["match"][-1][1], list) and len(fr["match"][-1][1]) < fr["n"]
@@ -881,6 +930,9 @@ WITNESS = {
                           + [[_d(A, 0), _d(B, 1), _d(C, 2)]]},
                {"cfg": wcfg(window_size=3, scoring_reduction="max", track_matching_method="greedy"),
                 "frames": [[_d(A, 0), _d(B, 1), _d(C, 2)]] + [[_d(A, 0), _d(B, 1)]] * 4}],
+    "F-C09e": [{"cfg": wcfg(candidates_method="local_queues", instance_score_threshold=0.5),
+                "frames": [[_d(A, 0), _d(B, 1), _d(C, 2, 0.25), [130.0, 50.0, 0.25, 3]]],
+                "input_tracks": "stale_same"}],
     # F-C09d: a detection without visible keypoints among others (Hungarian: infeasible), and as the first
     # detection ever (its NaN track blocks every later detection)
     "F-C09d": [{"cfg": wcfg(window_size=3, features="centroids", scoring_method="euclidean_dist"),
@@ -891,7 +943,8 @@ WITNESS = {
                 "frames": [[_d(A, 0) + [3, "allnan"]], [_d(A, 0) + [3, "tri"]], [_d(A, 0) + [3, "tri"]]]}],
 }
 WSIG = {"F-C09a": "lone_match_index0", "F-C09b": "lq_unmatched_detection",
-        "F-C09c": "stale_track_no_candidate", "F-C09d": "nan_association_score"}
+        "F-C09c": "stale_track_no_candidate", "F-C09d": "nan_association_score",
+        "F-C09e": "lq_untracked_keeps_input_track"}
 
 
 def replay_witnesses(chk, pid_map=None):
@@ -1007,6 +1060,11 @@ def process(chk, cases, fixes, name="tracker step (ids, output, queue state, sco
                 first = (f, d, impl_fields(case, fr), mo[f] if f < len(mo) else None)
                 break
         bad = oracle(case, frames)
+        for fr in frames:       # the interleaved second tracker must be consistent within itself
+            if fr.get("second") and not bad:
+                bad_b = oracle({"cfg": case["second_tracker"]["cfg"], "frames": case["second_tracker"]["frames"]},
+                               fr["second"])
+                bad = [(frames.index(fr), "second tracker: " + w) for _, w in bad_b]
         if bad:
             sigs = signatures(case, frames, bad)
             small = shrink(case, lambda c: signatures(c, run_impl(c), oracle(c, run_impl(c))) == sigs
@@ -1095,6 +1153,10 @@ def main(chk):
             cases.append(gen_case(chk.rng, cfg=cfg, max_frames=8, degenerate=True))
     for _ in range(chk.n(500, 6000)):
         cases.append(gen_case(chk.rng, max_animals=5 if not chk.thorough else 7))
+    # inputs that already carry tracks (seeded C09-r7m1) and a second tracker started mid-history (C10-r7m2)
+    for cfg in cfgs:
+        cases.append(gen_case(chk.rng, cfg=cfg, max_frames=6, input_tracks=True, second_tracker=False))
+        cases.append(gen_case(chk.rng, cfg=cfg, max_frames=6, input_tracks=False, second_tracker=True))
     # scores at threshold ± 1 ulp (seeded C09-r4m1) and hidden-but-stored nodes (seeded C10-r4m1)
     for cfg in cfgs:
         cases.append(gen_case(chk.rng, cfg=cfg, max_frames=6, ulp=True))
